@@ -56,6 +56,10 @@ def handle (toks : List String) : Option String :=
         | some xs => if xs.all (· < 2 ^ 32) then showBytes (encodeDict xs) else "bad-op"
         | none => "bad-op"
       | _ => "bad-op"
+  | ["rle.godecbool", hex] => some <|
+    match parseHex? hex with
+    | some bs => showBytes (goDecodeBoolean (bytesOf bs))
+    | none => "bad-op"
   | ["bitpacked.specdec", w, n, hex] => some <|
     match parseNat? w, parseNat? n, parseHex? hex with
     | some w, some n, some bs => showVals (specDecodeBitPacked w n (bytesOf bs))
